@@ -19,6 +19,42 @@ fn run<K: KemT>(name: &str) {
     let (enc2, ct2) = hpke::single_shot_seal::<ChaCha20Poly1305, HkdfSha256, K, _>(&OpModeS::Base, &pk_r, b"i", b"ss", b"aad", &mut Zero).unwrap();
     let pt2 = hpke::single_shot_open::<ChaCha20Poly1305, HkdfSha256, K>(&OpModeR::Base, &sk_r, &enc2, b"i", &ct2, b"aad").unwrap();
     println!("{} alloc ok {} {}", name, pt == b"allocating plaintext", pt2 == b"ss");
+    // the allocating forms agree with the in-place forms of the same build (whose transcript is compared with R1)
+    let (_, mut s2) = hpke::setup_sender::<ChaCha20Poly1305, HkdfSha256, K, _>(&OpModeS::Base, &pk_r, b"i", &mut Zero).unwrap();
+    let mut buf = *b"allocating plaintext";
+    let tag = s2.seal_in_place_detached(&mut buf, b"aad").unwrap();
+    let mut cat = buf.to_vec();
+    cat.extend_from_slice(&hpke::Serializable::to_bytes(&tag));
+    println!("{} alloc seal equals in-place seal || tag {}", name, cat == ct);
+    // every modified delivery is rejected by the allocating forms too, and rejections do not move the receiver
+    let mut r = hpke::setup_receiver::<ChaCha20Poly1305, HkdfSha256, K>(&OpModeR::Base, &sk_r, &enc, b"i").unwrap();
+    let mut variants: Vec<(Vec<u8>, &[u8])> = vec![];
+    for bit in [0usize, 7, 8 * (ct.len() - 1), 8 * (ct.len() - 16), 8 * (ct.len() - 17) + 3] {
+        let mut v = ct.clone();
+        v[bit / 8] ^= 1 << (bit % 8);
+        variants.push((v, b"aad"));
+    }
+    variants.push((ct[..ct.len() - 1].to_vec(), b"aad"));
+    variants.push((ct[..15].to_vec(), b"aad"));
+    variants.push((vec![], b"aad"));
+    let mut ext = ct.clone();
+    ext.push(0);
+    variants.push((ext, b"aad"));
+    variants.push((ct.clone(), b"aae"));
+    variants.push((ct.clone(), b""));
+    let mut all_rejected = true;
+    for (v, a) in &variants {
+        all_rejected &= matches!(r.open(v, a), Err(hpke::HpkeError::OpenError));
+        all_rejected &= matches!(hpke::single_shot_open::<ChaCha20Poly1305, HkdfSha256, K>(&OpModeR::Base, &sk_r, &enc, b"i", v, a), Err(hpke::HpkeError::OpenError));
+    }
+    println!("{} alloc open rejects {} modified deliveries {}", name, variants.len(), all_rejected);
+    println!("{} alloc open still accepts the genuine message afterwards {}", name, r.open(&ct, b"aad").ok().as_deref() == Some(&b"allocating plaintext"[..]));
+    println!("{} alloc open rejects a replay {}", name, r.open(&ct, b"aad").is_err());
+    let mut out = [0u8; 32];
+    let mut out2 = [0u8; 32];
+    s.export(b"x", &mut out).unwrap();
+    r.export(b"x", &mut out2).unwrap();
+    println!("{} alloc contexts export the same {}", name, out == out2);
 }
 
 fn main() {
